@@ -239,6 +239,11 @@ def run_check(prop: str, tier: str, seed: int) -> int:
         # exploration aid: a shorter budget than the tier's (the floor then decides between held and inconclusive as usual)
         plan = dict(plan, budget_s=min(plan.get("budget_s", 60), float(os.environ["VERIF_BUDGET_S"])))
     env["VF_DEADLINE"] = str(t_start + plan.get("budget_s", 60))
+    # every scratch workspace of this run lives under one directory that is removed at the end, also when shards were killed
+    import tempfile
+    run_tmp = tempfile.mkdtemp(prefix=f"vf-run-{prop}-")
+    env["TMPDIR"] = run_tmp
+    env["VERIF_TMP"] = run_tmp
 
     def spawn(shard, start, only="-"):
         out = os.path.join(work, f"s{shard}.{'all' if only == '-' else 'o' + only}.{start}.log")
@@ -427,6 +432,7 @@ def run_check(prop: str, tier: str, seed: int) -> int:
     import shutil
 
     shutil.rmtree(work, ignore_errors=True)
+    shutil.rmtree(run_tmp, ignore_errors=True)
     try:
         os.rmdir(os.path.join(HERE, ".work"))
     except OSError:
